@@ -729,6 +729,18 @@ func (fr *frame) runLoop(l *loop, ins []edge, incoming map[*ssa.BasicBlock][]edg
 	} else {
 		lreg = fr.inferLoopRegion(l, st0)
 	}
+	for b := range l.blocks {
+		for _, in := range b.Instrs {
+			if nx, ok := in.(*ssa.Next); ok {
+				if it, ok := fr.vals[nx.Iter].(*mapIter); ok && !lreg.All {
+					base := c.Fld(it.m, fGhostMap)
+					lreg.add("bool", func(a *Term) *Term {
+						return c.And(c.FldIdIs(a, fMapVisited), c.IsIdx(c.FldBase(a)), c.Eq(c.IdxBase(c.FldBase(a)), base))
+					})
+				}
+			}
+		}
+	}
 	u.havocRegion(st1, lreg, lname)
 	u.assumeLemmas(bc, fr, st1, l.ordinal, l.header)
 	env1 := fr.specEnv(bc, st1)
@@ -765,6 +777,28 @@ func (fr *frame) runLoop(l *loop, ins []edge, incoming map[*ssa.BasicBlock][]edg
 	for b, es := range inc {
 		if !l.blocks[b] {
 			incoming[b] = append(incoming[b], es...)
+			// "loop N: exit P": checked on every edge that leaves the loop; the merged exit state is kept for atExit()
+			for _, e := range es {
+				if bc != nil {
+					for _, ex := range bc.LoopExit[l.ordinal] {
+						envx := fr.specEnv(bc, e.st)
+						envx.ctx = l.header
+						g := envx.evalBool(ex.Expr)
+						u.oblige(e.st, "loop.exit", fmt.Sprintf("%s exit %s", lname, ex.Text()), ex.Pos(), g)
+						u.assume(e.st, g) // checked just above: available to what follows the loop
+					}
+				}
+				if fr.exitStates == nil {
+					fr.exitStates = map[int]*State{}
+					fr.exitCtx = map[int]*ssa.BasicBlock{}
+				}
+				if prev := fr.exitStates[l.ordinal]; prev != nil {
+					fr.exitStates[l.ordinal] = u.mergeStates([]*State{prev, e.st})
+				} else {
+					fr.exitStates[l.ordinal] = e.st.clone()
+				}
+				fr.exitCtx[l.ordinal] = l.header
+			}
 		}
 	}
 	// 4. invariant preserved, measure decreases
@@ -1113,20 +1147,33 @@ func (fr *frame) mapInstr(st *State, in ssa.Instruction) {
 		if _, ok := x.X.Type().Underlying().(*types.Map); !ok {
 			unsupported("range over %s", x.X.Type())
 		}
-		fr.vals[x] = &mapIter{m: fr.term(x.X), t: x.X.Type().Underlying().(*types.Map)}
+		m := fr.term(x.X)
+		// a new iteration: no key has been yielded yet (ghost visited set of the map, one iteration at a time)
+		st.mems["bool"] = u.MC.Havoc(u.mem(st, "bool", SBool), "V_bool", func(a *Term) *Term {
+			return c.And(c.FldIdIs(a, fMapVisited), c.IsIdx(c.FldBase(a)), c.Eq(c.IdxBase(c.FldBase(a)), c.Fld(m, fGhostMap)))
+		})
+		vk := c.BoundVar("vk", BV(64))
+		u.assume(st, c.Forall([]*Term{vk}, c.Not(u.readCell(st, "bool", c.Fld(c.Idx(c.Fld(m, fGhostMap), vk), fMapVisited)))))
+		fr.vals[x] = &mapIter{m: m, t: x.X.Type().Underlying().(*types.Map)}
 	case *ssa.Next:
 		it, ok := fr.get(x.Iter).(*mapIter)
 		if !ok {
 			unsupported("next on a non-map iterator")
 		}
-		// over-approximation of map iteration: each step yields SOME present entry (any order, repetitions
-		// allowed) or stops; sound for every property that does not rely on visiting each entry exactly once
-		u.Trusted["map iteration is modelled as: each step yields an arbitrary present entry or stops (order and multiplicity unspecified)"] = true
+		// map iteration (the map is not modified while it is iterated: checked by the loop frame): each step yields a
+		// present entry that has not been yielded yet, in an unspecified order, and the iteration stops only when
+		// every present entry has been yielded (ghost visited set on the map)
+		u.Trusted["map iteration is modelled as: every present entry is yielded exactly once, in an unspecified order (ghost visited set)"] = true
 		okT := c.Fresh("next.ok", SBool)
 		key := u.symVal(u.freshName("next.key"), it.t.Key(), false)
 		cell := fr.mapCellOf(st, it.m, key, it.t.Key())
-		u.assume(st, c.Implies(okT, c.And(c.Ne(it.m, c.NilA), u.readCell(st, "bool", c.Fld(cell, fMapPresent)))))
+		vis := c.Fld(cell, fMapVisited)
+		u.assume(st, c.Implies(okT, c.And(c.Ne(it.m, c.NilA), u.readCell(st, "bool", c.Fld(cell, fMapPresent)), c.Not(u.readCell(st, "bool", vis)))))
+		ak := c.BoundVar("ak", BV(64))
+		acell := c.Idx(c.Fld(it.m, fGhostMap), ak)
+		u.assume(st, c.Implies(c.Not(okT), c.Forall([]*Term{ak}, c.Implies(c.And(c.Ne(it.m, c.NilA), u.readCell(st, "bool", c.Fld(acell, fMapPresent))), u.readCell(st, "bool", c.Fld(acell, fMapVisited))))))
 		val := u.load(st, cell, it.t.Elem())
+		u.writeCell(st, "bool", vis, c.Or(okT, u.readCell(st, "bool", vis)))
 		fr.vals[x] = TupleV{okT, key, val}
 	default:
 		unsupported("map instruction %T", in)
